@@ -63,14 +63,17 @@ pub fn run(cfg: &RunCfg) -> Ctx {
         let _ = thorough;
         let idx = i as usize;
         let (lazy, o, p) = sc[idx].clone();
-        scenario(rng, ctx, lazy, o, p);
+        scenario(rng, ctx, lazy, o, p, 0);
     }));
     all.merge(par_cases(cfg, "sampled", cfg.n(1200, 16 * 1500), || (), |_, rng, ctx, _| {
         let lazy = rng.bool();
         let o: Vec<bool> = (0..rng.urange(0, 8)).map(|_| rng.chance(3, 5)).collect();
         let p: Vec<Op> = (0..rng.urange(1, 10)).map(|_| match rng.below(6) { 0 | 1 => Op::Kill, 2 => Op::TwoCalls, _ => Op::Call }).collect();
-        scenario(rng, ctx, lazy, o, p);
+        // endpoint options that select other code paths of the channel construction
+        let opts = rng.below(16) as u32;
+        scenario(rng, ctx, lazy, o, p, opts);
     }));
+    all.floor("opt.connect_timeout", 10);
     all.floor("model.call_ok_on_live_connection", 10);
     all.floor("model.call_reconnected", 10);
     all.floor("model.call_failed_unavailable", 10);
@@ -80,8 +83,11 @@ pub fn run(cfg: &RunCfg) -> Ctx {
     all
 }
 
-fn scenario(rng: &mut Rng, ctx: &mut Ctx, lazy: bool, outcomes: Vec<bool>, ops: Vec<Op>) {
-    let case_json = json!({"lazy": lazy, "connect_outcomes": outcomes.iter().map(|b| if *b {"ok"} else {"fail"}).collect::<Vec<_>>(),
+fn scenario(rng: &mut Rng, ctx: &mut Ctx, lazy: bool, outcomes: Vec<bool>, ops: Vec<Op>, opts: u32) {
+    if opts & 1 != 0 {
+        ctx.count("opt.connect_timeout");
+    }
+    let case_json = json!({"lazy": lazy, "endpoint_options_mask": opts, "connect_outcomes": outcomes.iter().map(|b| if *b {"ok"} else {"fail"}).collect::<Vec<_>>(),
         "ops": ops.iter().map(|o| format!("{:?}", o)).collect::<Vec<_>>()});
     ctx.begin(if lazy { "lazy" } else { "eager" }, case_json.clone());
     let seed = rng.u64();
@@ -116,7 +122,19 @@ fn scenario(rng: &mut Rng, ctx: &mut Ctx, lazy: bool, outcomes: Vec<bool>, ops: 
                 }
             }
         });
-        let ep = Endpoint::from_static("http://verif.test:50051");
+        let mut ep = Endpoint::from_static("http://verif.test:50051");
+        if opts & 1 != 0 {
+            ep = ep.connect_timeout(Duration::from_secs(3));
+        }
+        if opts & 2 != 0 {
+            ep = ep.timeout(Duration::from_secs(30));
+        }
+        if opts & 4 != 0 {
+            ep = ep.concurrency_limit(4);
+        }
+        if opts & 8 != 0 {
+            ep = ep.http2_keep_alive_interval(Duration::from_secs(20)).keep_alive_while_idle(true);
+        }
         let mut connected; // model: an established, un-killed connection exists
         let channel = if lazy {
             connected = false;
@@ -246,6 +264,7 @@ fn scenario(rng: &mut Rng, ctx: &mut Ctx, lazy: bool, outcomes: Vec<bool>, ops: 
     }
     ctx.add("observed.calls", states.iter().filter(|s| s.starts_with("ok") || *s == "unavailable").count() as u64);
     let fp = format!("{}|{}", if lazy { "lazy" } else { "eager" }, states.join(">"));
+    ctx.distinct("model_state_sequences", &fp);
     let nontrivial = states.iter().any(|s| s == "kill" || s == "unavailable" || s == "eager-initial-failure");
     ctx.fingerprint(fp, nontrivial);
     ctx.sample(case_json);
